@@ -704,15 +704,16 @@ class Runner1:
             i = len(rec.hcalls)
             rec.hcalls.append(0)
             kind = op[1]
+            shape = op[2] if len(op) > 2 else "def"
 
-            def handler():
+            def core():
                 rec.hcalls[i] += 1
                 rec.events.append(f"h:{i}")
                 if kind == "exc":
                     raise C["Boom"]("stop handler")
                 if kind == "base":
                     raise C["BaseBoom"]("stop handler")
-            ctx.register_stop_handler(handler)
+            ctx.register_stop_handler(make_callable(shape, kind, core))
             return "ok"
         if k == "start":
             net = self.w.net
@@ -750,6 +751,74 @@ class Runner1:
         if sum(thread_counts(REC.of(c2))) != 0:
             return "probe-leaks-threads"
         return "ok"
+
+
+CALLABLE_SHAPES = ["def", "lambda", "method", "partial", "object", "object_named", "builtin", "partialmethod",
+                   "staticmethod", "classmethod", "wrapped", "nested_partial"]
+
+
+def make_callable(shape: str, kind: str, core):
+    """the same behaviour (`core`: count, log, raise per `kind`) behind every kind of Python callable a user may register:
+    plain function, lambda, bound method, functools.partial (no __name__/__qualname__), callable instance without and with
+    __name__/__qualname__, a builtin method-wrapper, a partialmethod-bound callable, static / class method, functools.wraps
+    wrapper, partial of a partial"""
+    import functools
+
+    def with_arg(_x, *_a):
+        return core()
+
+    if shape == "def":
+        return core
+    if shape == "lambda":
+        return lambda: core()
+    if shape == "partial":
+        return functools.partial(with_arg, 0)
+    if shape == "nested_partial":
+        return functools.partial(functools.partial(with_arg, 0), 1)
+    if shape in ("object", "object_named"):
+        class CallableObject:
+            def __call__(self):
+                return core()
+        o = CallableObject()
+        if shape == "object_named":
+            o.__name__ = "handler_object"
+            o.__qualname__ = "handler_object"
+        return o
+    if shape == "builtin":
+        # a builtin method-wrapper (map.__next__): calls the Python function on every call and lets its exception through;
+        # unlike iter(f, sentinel) it is not exhausted by an exception, so a retried stop() calls it again
+        import itertools
+        return map(with_arg, itertools.repeat(0)).__next__
+
+    class Holder:
+        def run(self):
+            return core()
+
+        def run_arg(self, _x):
+            return core()
+        run_pm = functools.partialmethod(run_arg, 0)
+
+        @staticmethod
+        def srun():
+            return core()
+
+        @classmethod
+        def crun(cls):
+            return core()
+    if shape == "method":
+        return Holder().run
+    if shape == "partialmethod":
+        return Holder().run_pm
+    if shape == "staticmethod":
+        return Holder.srun
+    if shape == "classmethod":
+        return Holder.crun
+    if shape == "wrapped":
+        @functools.wraps(core)
+        def wrapper(*a, **k):
+            return core()
+        return wrapper
+    raise ValueError(shape)
 
 
 def op_line(op) -> str:
@@ -1337,7 +1406,7 @@ def gen_op(rng):
     if r < 0.91:
         return ["tjoin", n]
     if r < 0.96:
-        return ["addh", rng.choice(["ok", "exc", "exc", "base"] if rng.random() < 0.25 else ["ok", "exc", "exc"])]
+        return ["addh", rng.choice(["ok", "exc", "exc", "base"] if rng.random() < 0.25 else ["ok", "exc", "exc"]), rng.choice(CALLABLE_SHAPES)]
     if r < 0.98:
         return ["removeForeign"]
     return ["start", 0, 0]
@@ -1391,7 +1460,7 @@ def gen_singleton(rng, max_ops: int):
             elif r < 0.7:
                 ops.append(["q", ["get", rng.choice([1, 2, 3, 4]), rng.choice(["rpc", "instr", "task"])]])
             elif r < 0.78:
-                ops.append(["q", ["addh", rng.choice(["ok", "exc"])]])
+                ops.append(["q", ["addh", rng.choice(["ok", "exc"]), rng.choice(CALLABLE_SHAPES)]])
             elif r < 0.84:
                 ops.append(["qcontext"])
             elif r < 0.9:
@@ -1418,7 +1487,7 @@ def gen_population(rng):
         if mk[1] == "instr" and rng.random() < 0.5:
             ops.append(["iopen", n])
     if rng.random() < 0.4:
-        ops.append(["addh", rng.choice(["ok", "exc"])])
+        ops.append(["addh", rng.choice(["ok", "exc"]), rng.choice(CALLABLE_SHAPES)])
     mk = gen_make(rng, 0.2, names=(4, 4, 4, 1), invalid=0.0)
     return rng.random() < 0.5, ops, mk
 
@@ -1579,6 +1648,9 @@ def oracle_history(tr: Trace):
                     d = ob["relc"].get(int(mid), 0) - pr.get(int(mid), 0)
                     if d != 1:
                         flag(f"stop-release-count:{kind}", f"object {NAMES[n]!r} ({kind}) released {d} times by stop()", i)
+                h0, h1 = [int(x) for x in _lst(prev.get("hc"))], [int(x) for x in _lst(st.get("hc"))]
+                if len(h0) != len(h1) or any(b - a_ != 1 for a_, b in zip(h0, h1)):
+                    flag("stop-handler-calls", f"stop() did not call every stop handler exactly once: {prev.get('hc')} -> {st.get('hc')}", i)
                 d0 = ob["relc"].get(0, 0) - pr.get(0, 0)
                 if d0 != 1:
                     flag("stop-release-count:$context", f"$context released {d0} times by stop()", i)
@@ -1774,6 +1846,13 @@ DIRECTED_HIST = [
              ["tstart", 1], ["tjoin", 1], ["remove", 1], ["make", "instr", 1, "a", 0, 0, "loop", 0], ["make", "rpc", 1, "a", 0, 0, "loop", 0],
              ["remove", 1], ["call", 1], ["make", "rpc", 1, "a", 1, 0, "loop", 0], ["make", "rpc", 1, "a", 0, 0, "loop", 0], ["stop"], ["probe"]]),
     (True, [["make", "rpc", 1, "a", 0, 0, "loop", 0], ["get", 1, "rpc"], ["stop"], ["start", 0, 0], ["addh", "base"], ["stop"], ["stop"], ["probe"]]),
+    # stop handlers of every callable kind, raising and returning, in two orders; every one must be called once and stop() must finish
+    (True, [["start", 0, 0]] + [["addh", k, sh] for sh in CALLABLE_SHAPES for k in ("exc", "ok")] +
+           [["make", "task", 1, "a", 0, 1, "loop", 0], ["tstart", 1], ["make", "instr", 2, "b-1", 0, 0, "loop", 0], ["iopen", 2],
+            ["stop"], ["stop"], ["call", 1], ["probe"]]),
+    (False, [["addh", "exc", "partial"], ["addh", "ok", "object"], ["start", 0, 0]] +
+            [["addh", k, sh] for sh in reversed(CALLABLE_SHAPES) for k in ("ok", "exc")] +
+            [["make", "rpc", 1, "a", 0, 0, "loop", 0], ["stop"], ["probe"]]),
     # related names (case, prefix, suffix, brackets) are different objects; the same operation twice; unusual order
     (True, [["start", 0, 0], ["make", "rpc", 1, "a", 0, 0, "loop", 0], ["make", "instr", 5, "A", 0, 0, "loop", 0],
             ["make", "task", 6, "aa", 0, 0, "loop", 0], ["make", "rpc", 7, "a_", 0, 1, "loop", 0], ["make", "rpc", 8, "(a)", 0, 0, "loop", 0],
@@ -1793,6 +1872,8 @@ DIRECTED_HIST = [
 ]
 
 DIRECTED_SINGLE = [
+    [["qstart", True, True, 0, 0, []]] + [["q", ["addh", "exc", sh]] for sh in CALLABLE_SHAPES] +
+    [["q", ["make", "rpc", 1, "a", 0, 0, "loop", 0]], ["qstop"], ["qcontext"], ["qprobe", True]],
     [["qstart", True, True, 1, 0, []], ["qcontext"], ["qstop"], ["qstart", True, True, 0, 0, []], ["qprobe", True]],   # DESIGN §7(f)
     [["qstart", True, True, 0, 1, []], ["qstop"], ["qprobe", True]],
     [["qstart", True, False, 0, 0, [False]], ["qcontext"], ["qstop"], ["qprobe", False]],
@@ -1853,6 +1934,9 @@ class C12(Prop):
                     res.count("fault_qstart_udp")
                 elif not all(op[5]):
                     res.count("fault_qstart_peer_unreachable")
+            if k in ("addh", "q-addh"):
+                hop = op if k == "addh" else op[1]
+                res.count("stop_handler_%s_%s" % (hop[2] if len(hop) > 2 else "def", hop[1]))
             if k == "addh" and op[1] != "ok":
                 res.count("fault_stop_handler_" + op[1])
             if k == "stop" and o == "ok" and "state" in ob and i_prev_state(tr, ob) is not None:
